@@ -1,7 +1,8 @@
 (* C16 -- config write never shrinks a table, honours overrides, sets the buffer count last.
    Statements only; proofs in proofs/Config_proofs.v.  The default tables, schema defaults and
    ids are regenerated from /repo on every run (gen/GenConfig.v); [merged_gen]/[config_writes]
-   transliterate EZSP.write_config and are tied to it by the C16 correspondence. *)
+   transliterate EZSP.write_config and are tied to it by the C16 correspondence and, at the end of
+   this file, to the function emitted from its source text (the c16_source theorems). *)
 From Coq Require Import NArith List Bool String.
 Import ListNotations.
 Require Import BV.gen.GenConfig BV.model.Config BV.proofs.Config_proofs.
@@ -92,3 +93,84 @@ Example c16_example :
   /\ map fst (config_writes (merged 8 [(3, Some 100)]) []) =
        [26; 19; 56; 18; 12; 45; 6; 25; 13; 5; 34; 30; 17; 42; 3; 1].
 Proof. vm_compute. split; [intros H; repeat (destruct H as [H|H]; [discriminate|]); exact H | reflexivity]. Qed.
+
+(* ---- the tie to the source text --------------------------------------------------------------------
+   gen/GenConfigFn.v is emitted on every run from the Python AST of EZSP.write_config
+   (bellows/ezsp/__init__.py) by harness/pysrc.py: the insertion-ordered dicts are association lists with
+   dict semantics (lib/PyDict.v: assignment to an existing key keeps its position, pop removes, pop and
+   re-assignment moves the key to the end), the loops over DEFAULT_CONFIG[version], config.items(),
+   ezsp_values.values() and ezsp_config.values() are folds, dataclasses.replace is a record update,
+   isinstance a match on the table entry, and every awaited getValue / setValue / getConfigurationValue /
+   setConfigurationValue takes the NCP's answer from an oracle [o : ncp] (an argument; the answer may
+   depend on all commands issued before) and is appended to the trace.  [py_write_config v o config]
+   returns the commands issued and how the coroutine ended (Returned | Raised), or None when the version
+   has no table (KeyError).
+
+   vocabulary (proofs/ConfigSrc_proofs.v):
+   config_reads o cur     := the NCP answers a configuration read of id with the value [assoc id cur]
+                             gives, with an error status when that is None / Some None, whatever was sent before
+   values_readable o vals := a successful value read returns at least as many bytes as the value's type has
+   same_reads o1 o2       := o1 and o2 answer getValue and getConfigurationValue alike
+   is_write c             := c is a setValue or a setConfigurationValue
+   plan_cmds (vw, cw)     := the setValue commands of vw followed by the setConfigurationValue commands of cw
+   model_trace vals d cur := for each value its read then its write; then for each entry of d its read and,
+                             unless it is grow-only and the NCP reports at least as much, its write
+   rows_config / rows_values := the RuntimeConfig / ValueConfig rows of a table (config_defaults v and
+                             value_defaults v are these projections of the version's table)            *)
+Require Import BV.lib.PyDict BV.gen.GenConfigFn BV.proofs.ConfigSrc_proofs.
+
+(* every supported version, every override dict (distinct keys, as a Python dict has), every NCP: the
+   coroutine runs to its end and the writes it issues are exactly the model's plan -- the values, then
+   the configuration settings, same ids, same values, same order.  The statuses the NCP returns for the
+   writes are not constrained: rejected settings do not change the sequence. *)
+Theorem c16_source_write_config : forall v user cur o,
+  In v SUPPORTED_VERSIONS -> NoDup (map fst user) ->
+  config_reads o cur -> values_readable o (value_defaults v) ->
+  exists tr, py_write_config v o user = Some (tr, Returned)
+             /\ filter is_write tr = plan_cmds (write_plan v user cur).
+Proof. exact src_write_config. Qed.
+Print Assumptions c16_source_write_config.
+
+(* the same for any table, with the whole command sequence (reads included); the well-formedness the model
+   presupposes is explicit: distinct configuration ids, schema-default ids and override keys
+   ([admissible], as in the Generic section above) and distinct value ids; c16_versions_admissible and
+   src_versions_check show the generated tables satisfy it *)
+Theorem c16_source_trace : forall rows sd user cur o,
+  admissible (rows_config rows) sd user -> NoDup (map vid (rows_values rows)) ->
+  config_reads o cur -> values_readable o (rows_values rows) ->
+  py_write_config_body (map cfg_of_row rows) sd o user
+  = (model_trace (rows_values rows) (merged_gen (rows_config rows) sd user) cur, Returned).
+Proof. exact src_body_trace. Qed.
+Print Assumptions c16_source_trace.
+
+(* a rejected setting does not stop, or alter, the remaining ones: two NCPs that answer the reads alike
+   are sent the same commands and the coroutine ends the same way, whatever statuses they return for the
+   writes -- for every version, every argument, no well-formedness needed *)
+Theorem c16_source_rejection_independent : forall v o1 o2 config, same_reads o1 o2 ->
+  py_write_config v o1 config = py_write_config v o2 config.
+Proof. exact src_rejection_independent. Qed.
+Print Assumptions c16_source_rejection_independent.
+
+(* the hypotheses are satisfiable for every version, every [cur] and every choice of rejected writes *)
+Theorem c16_source_hypotheses_satisfiable : forall v cur reject, In v SUPPORTED_VERSIONS ->
+  config_reads (ncp_of cur reject) cur /\ values_readable (ncp_of cur reject) (value_defaults v).
+Proof. exact (fun v cur reject Hv => conj (ncp_of_reads cur reject) (ncp_of_readable v cur reject Hv)). Qed.
+Print Assumptions c16_source_hypotheses_satisfiable.
+
+(* what [values_readable] is needed for: a getValue answer shorter than the value's type (EZSP v8, an empty
+   value with a success status) ends write_config with the exception of the deserialisation -- after the
+   read, before any write; outside C16's statement (a malformed answer is not a rejected setting) *)
+Theorem c16_source_short_value_read : exists id,
+  py_write_config 8 ncp_short [] = Some ([CGetValue id], Raised).
+Proof. exact src_short_value_read_raises. Qed.
+
+(* non-vacuity: EZSP v8, one override of a non-default setting, every write rejected -- the emitted
+   function issues the configuration writes of c16_example, the buffer count last *)
+Example c16_source_example :
+  match py_write_config 8 (ncp_of [] (fun _ => true)) [(3, Some 100)] with
+  | Some (tr, Returned) =>
+      flat_map (fun c => match c with CSetConfigurationValue id _ => [id] | _ => [] end) tr
+      = [26; 19; 56; 18; 12; 45; 6; 25; 13; 5; 34; 30; 17; 42; 3; 1]
+  | _ => False
+  end.
+Proof. exact src_example. Qed.
